@@ -45,11 +45,15 @@ WORDS = ["zeta", "alpha", "mu", "beta", "omega", "delta"]
 
 def name_of(case, i):
     """Entry names in a generated order (registration order is deliberately not alphabetical)."""
+    if case.get("default_names") and i < 2:
+        return ["default_displacement_move", "default_cell_move"][i]
     order = case.get("name_order") or list(range(len(WORDS)))
     return WORDS[order[i]]
 
 
 def index_of(case, name):
+    if name in ("default_displacement_move", "default_cell_move"):
+        return ["default_displacement_move", "default_cell_move"].index(name)
     order = case.get("name_order") or list(range(len(WORDS)))
     return order.index(WORDS.index(name))
 
@@ -74,12 +78,32 @@ def make_mc(case, with_calc=False):
         def evaluate(self, context):
             return False
 
-    atoms = Atoms("H", positions=[[0, 0, 0]])
+    driver = case.get("driver", "MonteCarlo")
+    scale = float(case.get("wscale", 1.0))
     with warnings.catch_warnings():
         warnings.simplefilter("ignore")
-        mc = MonteCarlo(atoms, max_cycles=case["cycles"], seed=case["seed"])
+        if driver == "MonteCarlo":
+            atoms = Atoms("H", positions=[[0, 0, 0]])
+            mc = MonteCarlo(atoms, max_cycles=case["cycles"], seed=case["seed"])
+        else:
+            from vlib.calcs import FastCalc
+
+            atoms = Atoms("H3", positions=[[1, 1, 1], [3, 3, 3], [1, 3, 2]], cell=[6, 6, 6], pbc=True)
+            atoms.calc = FastCalc("ideal", {})
+            if driver == "Canonical":
+                from quansino.mc.canonical import Canonical
+
+                mc = Canonical(atoms, temperature=300.0, max_cycles=case["cycles"], seed=case["seed"])
+            elif driver == "Isobaric":
+                from quansino.mc.isobaric import Isobaric
+
+                mc = Isobaric(atoms, temperature=300.0, pressure=0.01, max_cycles=case["cycles"], seed=case["seed"])
+            else:
+                from quansino.mc.isotension import Isotension
+
+                mc = Isotension(atoms, temperature=300.0, pressure=0.01, max_cycles=case["cycles"], seed=case["seed"])
         for i, (interval, weight, minimum) in enumerate(case["table"]):
-            mc.add_move(Probe(), criteria=Never(), name=name_of(case, i), interval=interval, probability=float(weight), minimum_count=minimum)
+            mc.add_move(Probe(), criteria=Never(), name=name_of(case, i), interval=interval, probability=float(weight) * scale, minimum_count=minimum)
     return mc
 
 
@@ -104,7 +128,12 @@ def table_st(draw, stat=False):
         budget -= minimum
         table.append([interval, weight, minimum])
     case = {"table": table, "cycles": cycles, "seed": draw(st.integers(0, 2 ** 32)), "nothing_due_class": nothing_due_class,
-            "name_order": list(draw(st.permutations(list(range(len(WORDS))))))}
+            "name_order": list(draw(st.permutations(list(range(len(WORDS)))))),
+            # all weights times a common factor: only their ratios matter (tiny and huge scales included)
+            "wscale": draw(st.sampled_from([1.0, 1.0, 1.0, 1e-9, 1e-12, 1e-200, 1e150])),
+            # the scheduler is the base driver's; ensembles inherit it (entries may use the ensembles' default names)
+            "driver": draw(st.sampled_from(["MonteCarlo", "MonteCarlo", "Canonical", "Isobaric", "Isotension"])),
+            "default_names": draw(st.booleans())}
     if stat:
         case["steps"] = draw(st.sampled_from([3000, 4000]))
     else:
@@ -164,11 +193,19 @@ def run_steps(case):
             nontrivial = nontrivial or bool(set(labs) & {"some-not-due", "weights+forced"})
             if v:
                 return {"labels": labels, "nontrivial": True, "key": key, "violation": {"kind": v[0], "detail": f"table(interval,weight,min)={case['table']} cycles={case['cycles']}: {v[1]}"}}
+        labels.append("driver:" + case.get("driver", "MonteCarlo") + (":default-names" if case.get("default_names") else ""))
+        if case.get("wscale", 1.0) != 1.0:
+            labels.append("weights-rescaled")
         if case["via_run"]:
             mc2 = make_mc(case)
             labels.append("via-run")
             for step in range(0, 7):
-                mc2.run(1)
+                if step % 2:
+                    mc2.run(1)
+                else:
+                    for st_ in mc2.irun(1):  # fully iterated: each yielded step is itself a generator of moves
+                        for _ in st_:
+                            pass
                 names = [h[0] for h in mc2.move_history]
                 v, labs = check_step(case, step, names, "run/move_history")
                 if v:
